@@ -109,7 +109,7 @@ def fmtObs (cx : Ctx) (prevLive : Int) (prevDbl : Nat) (o : MOut) : String :=
   let head := " ".intercalate (o.status :: o.toks)
   let st : RState := { c := o.c, r := o.r, l := o.data.length, data := o.data }
   let led :=
-    if cx.elem = .u32 then "- 0 0"
+    if !cx.elem.ledgered then "- 0 0"
     else
       let leakedBefore : Int := prevLive - (cx.prev.l : Int)
       let live : Int := (o.data.length : Int) + leakedBefore + (o.leaked : Int)
